@@ -501,6 +501,29 @@ O(id='NativeEnumerated_uper', props=['C01', 'C02', 'C08', 'C13'], kind='bounded'
   trusted=['bsearch: stub (stubs/bsearch.c)'], min_props=50, timeout=900)
 
 # every proof-kind obligation that enforces a contract with dfcc also proves that function's frame (assigns clause): C19
+# ---------------------------------------------------------------- constructed codecs over stub members
+STUBM = 'member type is a harness stub (2-octet restartable value: RC_WMORE until complete, RC_FAIL on 0xFF); descriptor laid out by hand in the shape asn1c emits'
+SQO = dict(harness='harness/h_seq_oer.c', units=[SK + 'constr_SEQUENCE_oer.c', SK + 'constr_SEQUENCE.c'],
+           link=[SK + 'constr_SEQUENCE.c', SK + 'asn_bit_data.c', SK + 'oer_support.c', SK + 'oer_decoder.c'],
+           fp_restrict=[(r'oer_decoder\)$', ['sv_oer']), (r'free_struct\)$', ['sv_free'])], trusted=[STUBM])
+for _e, _n, _u in ((0, 8, 6), (1, 10, 12)):
+    _bd = 'SEQUENCE { a, b OPTIONAL, c%s } of stub members; every input of at most %d octets%s' % (', ..., d' if _e else '', _n, ' whose extension-addition bitmap is one octet' if _e else '')
+    O(id='SEQUENCE_decode_oer.e%d' % _e, props=['C04', 'C14', 'C03'], kind='bounded', tier='experimental', entry='h_SEQUENCE_decode_oer', functions=['SEQUENCE_decode_oer', 'SEQUENCE_free', 'asn_bit_data_new_contiguous', 'asn_get_few_bits', 'oer_open_type_get', 'oer_open_type_skip', 'oer_fetch_length'],
+      defines=['VF_EXT=%d' % _e, 'VF_N=%d' % _n], unwind=_u, cbmc=['--unwindset', 'asn_get_few_bits:3,h_SEQUENCE_decode_oer.0:%d' % (_n + 2), '--malloc-may-fail', '--malloc-fail-null', '--memory-leak-check'],
+      bound=_bd + ' in an exact-size heap buffer; every allocation may fail', min_props=80, timeout=1500, **SQO)
+    O(id='SEQUENCE_decode_oer.chunk2.e%d' % _e, props=['C05'], kind='bounded', tier='experimental', entry='h_SEQUENCE_decode_oer_chunked', functions=['SEQUENCE_decode_oer', 'asn_get_few_bits', 'asn_get_undo', 'oer_open_type_get', 'oer_open_type_skip'],
+      defines=['VF_EXT=%d' % _e, 'VF_N=%d' % _n], unwind=_u, cbmc=['--unwindset', 'asn_get_few_bits:3', '--no-malloc-may-fail'],
+      bound=_bd + '; every split point k (two chunks)', min_props=80, timeout=1500, **SQO)
+
+SFO = dict(harness='harness/h_setof_oer.c', units=[SK + 'constr_SET_OF_oer.c', SK + 'constr_SET_OF.c', SK + 'asn_SET_OF.c'],
+           link=[SK + 'constr_SET_OF.c', SK + 'asn_SET_OF.c', SK + 'oer_support.c'],
+           fp_restrict=[(r'oer_decoder\)$', ['sv_oer']), (r'free_struct\)$', ['sv_free'])], trusted=[STUBM, 'stubs/realloc64.c replaces the CBMC realloc model'], stubs=['stubs/realloc64.c'])
+O(id='SET_OF_decode_oer.b8', props=['C04', 'C14', 'C15'], kind='bounded', tier='experimental', entry='h_SET_OF_decode_oer', functions=['SET_OF_decode_oer', 'oer_fetch_quantity', 'asn_set_add', 'SET_OF_free', 'asn_set_empty'],
+  defines=['VF_N=8'], unwind=5, cbmc=['--unwindset', 'oer_fetch_quantity.0:10,oer_fetch_quantity.1:10,h_SET_OF_decode_oer.0:10', '--malloc-may-fail', '--malloc-fail-null', '--memory-leak-check'],
+  bound='SET OF stub members; every input of at most 8 octets in an exact-size heap buffer; every allocation may fail', min_props=80, timeout=900, **SFO)
+O(id='SET_OF_decode_oer.chunk2', props=['C05'], kind='bounded', tier='experimental', entry='h_SET_OF_decode_oer_chunked', functions=['SET_OF_decode_oer', 'oer_fetch_quantity', 'asn_set_add'],
+  defines=['VF_N=8'], unwind=5, cbmc=['--unwindset', 'oer_fetch_quantity.0:10,oer_fetch_quantity.1:10', '--no-malloc-may-fail'], bound='every split point of every input of at most 8 octets (two chunks)', min_props=80, timeout=900, **SFO)
+
 for _o in OBLIGATIONS:
     if _o.get('enforce') and _o.get('kind') in ('enforce', 'width') and _o.get('tier') == 'quick' and 'C19' not in _o['props']:
         _o['props'] = _o['props'] + ['C19']
